@@ -93,6 +93,146 @@ def check_project(res, project, out, ptable, rng, stage="P", fmt="json"):
                                     "counts": {k: list(v) for k, v in cvals.items()}, "text": observed})
 
 
+E2E_VARS = ["name", "x", "y", "value", "n", "who", "what", "amount", "a_b", "v2", "total"]
+E2E_COMPS = ["b", "i", "a", "span", "strong", "em", "h1", "p", "u", "c1"]
+
+
+def e2e_cfg(**kw):
+    base = dict(p_fk=0.2, p_empty_comp=0.0, var_pool=E2E_VARS, comp_pool=E2E_COMPS, n_keys=(10, 18), n_locales=(2, 4), namespaces=0.3)
+    base.update(kw)
+    return GenCfg(**base)
+
+
+def plural_ambiguous(rnodes, cvals, loc, eff, ptable):
+    """True when a defaulted locale renders a plural whose category differs between the requested
+    locale and the locale the text comes from: the properties do not say whose rules apply."""
+    if loc == eff:
+        return False
+    for r in rnodes:
+        if r[0] == "plural":
+            n = cvals[r[2]][1]
+            if ptable[loc][r[1]]["cat"][str(n)] != ptable[eff][r[1]]["cat"][str(n)]:
+                return True
+            if any(plural_ambiguous(b, cvals, loc, eff, ptable) for b in r[3].values()):
+                return True
+        elif r[0] == "comp":
+            if plural_ambiguous(r[2], cvals, loc, eff, ptable):
+                return True
+        elif r[0] == "range":
+            if any(plural_ambiguous(b, cvals, loc, eff, ptable) for _, b in r[3]):
+                return True
+    return False
+
+
+def add_e2e_observations(crate, project, ptable, rng, n_assign=2, flavours=("td_string", "td_display", "td")):
+    """One observation per (ns, locale, key, assignment); expectation from the model."""
+    from .. import e2e
+    cfg = project["cfg"]
+    locales = gen.effective_locales(cfg)
+    default = locales[0]
+    resolver = model.Resolver(project, ptable)
+    for ns in (cfg.get("namespaces") or [None]):
+        for path, _ in model.leaf_paths(project["data"][(ns, default)]):
+            # the argument set a caller must supply is the union over all locales (C08)
+            per_loc = {}
+            allv, allc, allcnt = {}, set(), {}
+            ok = True
+            for loc in locales:
+                try:
+                    eff = model.effective_locale(project, ns, loc, path)
+                    rn = resolver.key(ns, eff, path)
+                except model.ModelError:
+                    ok = False
+                    break
+                per_loc[loc] = (eff, rn)
+                model.collect_vars(rn, allv, allc, allcnt)
+            if not ok:
+                continue
+            union_nodes = [r for (_, rn) in per_loc.values() for r in rn]
+            assignments, _, _, _ = workload.choose_args(union_nodes, rng, n_assign)
+            kp = e2e.key_path_tokens(ns, path)
+            for loc in locales:
+                eff, rn = per_loc[loc]
+                lv = "Locale::" + e2e.ident(loc)
+                for args, cvals in assignments:
+                    # values a plain `{{ count }}` may see in a locale where the key has no range
+                    full_args = dict(args)
+                    if plural_ambiguous(rn, cvals, loc, eff, ptable):
+                        continue
+                    expected = model.render_rnodes(rn, full_args, eff, ptable, cvals)
+                    sa = e2e.args_tokens(args, cvals, allc, "string")
+                    va = e2e.args_tokens(args, cvals, allc, "view")
+                    sep_s = ", " if sa else ""
+                    sep_v = ", " if va else ""
+                    body = []
+                    oid = crate.next_id
+                    if "td_string" in flavours:
+                        body.append("    { let v = td_string!(%s, %s%s%s); emit(%d, \"td_string\", &v.to_string()); }" % (lv, kp, sep_s, sa, oid))
+                    if "td_display" in flavours:
+                        body.append("    { let v = td_display!(%s, %s%s%s); emit(%d, \"td_display\", &v.to_string()); }" % (lv, kp, sep_s, sa, oid))
+                    if "td" in flavours:
+                        body.append("    { let v = td!(%s, %s%s%s); emit(%d, \"td\", &html(v)); }" % (lv, kp, sep_v, va, oid))
+                    crate.add("\n".join(body), {"ns": ns, "locale": loc, "effective": eff, "path": list(path), "args": args,
+                                                "counts": cvals, "expected": expected, "rnodes": rn})
+
+
+def judge_e2e(res, crate, obs, flavours=("td_string", "td_display", "td"), prop_sig="C01"):
+    from .. import e2e
+    for oid, exp in crate.expect.items():
+        got = obs.get(oid, {})
+        for fl in flavours:
+            res.ev()
+            o = got.get(fl) or got.get("*")
+            if o is None:
+                text = "<<no observation>>"
+            elif "panic" in o:
+                text = "<<panic: %s>>" % o["panic"]
+            else:
+                text = e2e.normalise_html(o["v"]) if fl in ("td", "t", "tu") else o["v"]
+            if is_nontrivial(exp["rnodes"]):
+                res.nontriv([exp["rnodes"], exp["locale"] == exp["effective"], fl])
+            res.count("e2e:" + fl)
+            if text != exp["expected"]:
+                res.violation("%s/e2e-text-mismatch/%s" % (prop_sig, fl),
+                              "crate=%s flavour=%s ns=%r locale=%s (effective %s) key=%s args=%r counts=%r\n  expected %r\n  observed %r" % (
+                                  crate.name, fl, exp["ns"], exp["locale"], exp["effective"], ".".join(exp["path"]), exp["args"], exp["counts"],
+                                  exp["expected"], text),
+                              {"project": gen.project_to_jsonable(crate.project), "flavour": fl, "expect": {k: v for k, v in exp.items() if k != "rnodes"},
+                               "observed": text, "format": crate.fmt})
+            elif fl == "td":
+                res.sample({"stage": "e2e", "flavour": fl, "locale": exp["locale"], "key": ".".join(exp["path"]), "args": exp["args"], "text": text}, limit=9)
+
+
+def run_e2e(res, tier, seed, tag, n_crates, cfg, flavours=("td_string", "td_display", "td"), n_assign=2, fmts=("json",), prop_sig="C01"):
+    from .. import e2e
+    rng = rng_for(seed, tag, "e2e")
+    crates = []
+    projs = [projects.gen_valid_project(rng, cfg) for _ in range(n_crates)]
+    ptable = workload.plural_table_for(projs)
+    for i, p in enumerate(projs):
+        c = e2e.ProbeCrate("%s_%d" % (tag.replace("-", "_"), i), p, fmt=fmts[i % len(fmts)])
+        add_e2e_observations(c, p, ptable, rng, n_assign, flavours)
+        crates.append(c)
+    root = e2e.write_workspace(tag, crates, seed=seed)
+    status, secs, stderr = e2e.build_workspace(root, crates)
+    res.extra.setdefault("e2e", {})["build_s"] = round(secs, 1)
+    res.extra["e2e"]["crates"] = len(crates)
+    res.extra["e2e"]["call_sites"] = sum(len(c.obs) for c in crates) * len(flavours)
+    for c in crates:
+        st = status[c.name]
+        if not st["ok"]:
+            res.ev()
+            res.violation("%s/e2e-valid-project-does-not-compile" % prop_sig,
+                          "probe crate %s for a model-valid project did not compile:\n%s" % (c.name, "\n".join(st["messages"])[:3000]),
+                          {"project": gen.project_to_jsonable(c.project), "messages": st["messages"][:5], "format": c.fmt, "root": root})
+            continue
+        obs, done, rc, err = e2e.run_crate(st["exe"])
+        if not done:
+            res.inconclusive.append("probe crate %s did not finish (rc=%r): %s" % (c.name, rc, err[-300:]))
+        judge_e2e(res, c, obs, flavours, prop_sig)
+    return crates
+
+
 def run(tier, seed, replay=None):
     res = Result("C01", tier, seed, RULE)
     n = 400 if tier == "quick" else 6000
@@ -106,6 +246,7 @@ def run(tier, seed, replay=None):
         for p, o in zip(projs, outs):
             check_project(res, p, o, ptable, rng, fmt=fmt)
     res.extra["projects"] = n
+    run_e2e(res, tier, seed, "c01", 3 if tier == "quick" else 24, e2e_cfg(), fmts=("json", "json", "yaml", "json5"))
     res.assumptions += ["reference model vlib/model.py", "ICU4X compiled data as the CLDR plural oracle",
                         "literal text never contains < > {{ }} $t( (DESIGN section 1)"]
     return res.finish(min_events=1000)
